@@ -33,6 +33,8 @@ type c14Callable struct {
 }
 
 var c14Callables = []c14Callable{
+	{"f0", nil, reflect.Invalid, false}, // no parameters: every argument, piped or written, is one too many
+	{"obj.M0", nil, reflect.Invalid, false},
 	{"f1", []reflect.Kind{reflect.String}, reflect.Invalid, false},
 	{"f2", []reflect.Kind{reflect.String, reflect.Int}, reflect.Invalid, false},
 	{"f3", []reflect.Kind{reflect.String, reflect.Int, reflect.Float64}, reflect.Invalid, false},
@@ -123,6 +125,7 @@ func c14Direct(c c14Callable, args []c14Arg) (out string, ok bool) {
 func c14Vars(log *[]string) jet.VarMap {
 	rec := func(s string) string { *log = append(*log, s); return s }
 	v := jet.VarMap{}
+	v.Set("f0", func() string { return rec("f0()") })
 	v.Set("f1", func(x string) string { return rec(fmt.Sprintf("f1(%s)", x)) })
 	v.Set("f2", func(x string, a int) string { return rec(fmt.Sprintf("f2(%s %d)", x, a)) })
 	v.Set("f3", func(x string, a int, b float64) string { return rec(fmt.Sprintf("f3(%s %d %v)", x, a, b)) })
@@ -157,6 +160,10 @@ func (o c14RecObj) MV(x string, a int) string {
 	s := fmt.Sprintf("obj.MV(%s %d)", x, a)
 	*o.log = append(*o.log, s)
 	return s
+}
+func (o c14RecObj) M0() string {
+	*o.log = append(*o.log, "obj.M0()")
+	return "obj.M0()"
 }
 func (o *c14RecObj) MP(x string, a int) string {
 	s := fmt.Sprintf("pobj.MP(%s %d)", x, a)
